@@ -109,6 +109,9 @@ impl Apps {
         if let Some(e) = s["echo"].as_u64() {
             self.echo = Some((e, s["echo_chunk"].as_u64().unwrap_or(1 << 20)));
         }
+        if s["echo_off"] == true {
+            self.echo = None;
+        }
         // the handshake may already be complete
         if w.nodes[n]
             .conns
